@@ -19,7 +19,7 @@ EXPLANATION = (
     'memo) or construct the class, never return self; (d) no private state '
     'that the class mutates in place, and no lazily filled cache, is aliased '
     'into the clone.  Independence under arbitrary later mutation is not decided.')
-FLOORS = {'C07.a': 4, 'C07.b': 2, 'C07.c': 2, 'C07.d': 3, 'C07.e': 1}
+FLOORS = {'C07.a': 4, 'C07.b': 2, 'C07.c': 2, 'C07.d': 3, 'C07.e': 1, 'C07.f': 1}
 FILES = ['pyglove/core/symbolic/base.py', 'pyglove/core/symbolic/dict.py',
          'pyglove/core/symbolic/list.py', 'pyglove/core/symbolic/object.py',
          'pyglove/core/symbolic/ref.py', 'pyglove/core/symbolic/functor.py',
@@ -289,6 +289,46 @@ def rule_d(ctx, overrides):
       ctx.info('C07.d', m.fq, 'no private state copied by this override', m.loc)
 
 
+def rule_f(ctx):
+  """pg.clone rebuilds every plain container it walks through: in the list /
+  tuple / dict branches each returned value is a new container whose members
+  come from clone(member, deep, memo); no branch hands the input back (a tuple
+  is immutable, what it holds - nested tuples with symbolic members - is not)."""
+  idx = ctx.index
+  f = idx.func('pyglove.core.symbolic.base.clone')
+  g = C.cfg_of(f.node)
+  problems = []
+  n = 0
+  for t in g.nodes:
+    if t.kind != 'test' or not (isinstance(t.ast, ast.Call) and A.call_name(t.ast) == 'isinstance' and len(t.ast.args) == 2):
+      continue
+    kind = A.unparse(t.ast.args[1])
+    if kind not in ('list', 'tuple', 'dict'):
+      continue
+    n += 1
+    other_tests = {k.id for k in g.nodes if k.kind == 'test' and k is not t and isinstance(k.ast, ast.Call)
+                   and A.call_name(k.ast) == 'isinstance' and A.unparse(k.ast.args[0]) == A.unparse(t.ast.args[0])}
+    for m, lab in t.succ:
+      if lab != 'true':
+        continue
+      seen, _ = g.reach(m, blocked_nodes=other_tests, follow_exc=False)
+      seen.add(m.id)
+      for i in seen:
+        k = g.nodes[i]
+        if k.kind == 'return' and k.ast.value is not None:
+          v = k.ast.value
+          if isinstance(v, ast.Name) and v.id == A.unparse(t.ast.args[0]):
+            problems.append(f'the {kind} branch can return its input unchanged (line {k.lineno}): members that are '
+                            f'containers themselves stay shared between original and clone')
+          elif not A.has_call(v, lambda d: d == 'clone'):
+            problems.append(f'the {kind} branch returns `{A.unparse(v, 50)}` without cloning the members')
+  if n < 3:
+    raise AnalysisError('pg.clone no longer has list/tuple/dict branches')
+  ctx.ob('C07.f', f.fq, not problems,
+         'pg.clone rebuilds lists, tuples and dicts from clones of their members on every path', f.loc,
+         '; '.join(problems))
+
+
 def rule_e(ctx):
   """Independence at insertion time: a node taken from one copy and stored into
   the other is copied, because the inserting container recognises "already
@@ -316,6 +356,7 @@ def run(ctx):
   rule_c(ctx, overrides)
   rule_d(ctx, overrides)
   rule_e(ctx)
+  rule_f(ctx)
   ctx.note(f'{len(overrides)} _sym_clone overrides analysed: ' + ', '.join(c.name for c, _ in overrides))
   ctx.note('dropping the per-child clone in _sym_clone would NOT break behaviour '
            '(_relocate_if_symbolic re-clones a parented value), so it is deliberately not a rule')
